@@ -58,6 +58,12 @@ def judge_c03(d):
             allow = t[2] == "1"
             if impl.startswith("connect") and model in ("loopback", "nonroutable") and not allow:
                 return "connection attempt to a destination the policy must refuse: " + impl
+            if impl.startswith("connect") and not allow:
+                # whatever the model would have done: is the address connected to one the policy refuses?
+                cls = ask_driver(["c03 connect 0 1 addr " + impl[len("connect "):]])[0].strip()
+                if cls in ("loopback", "nonroutable"):
+                    return ("connection attempt to %s, an address the policy classifies %s, with private-network connections "
+                            "not allowed (the model answers %s)" % (impl, cls, model))
             if model.startswith("connect") and impl in ("loopback", "nonroutable"):
                 return "a routable destination (or any destination with the policy off) was refused: model " + model
             if impl.startswith("connect") and model.startswith("connect") and impl != model and not allow:
@@ -323,6 +329,23 @@ def judge_c02(d):
 
 def judge_c14(d):
     q, impl, model = d["query"], d["impl"], d["model"]
+    if q.startswith("c10 session "):
+        # establishment timeout: "c10 session <proto> none - <E> <n> {C <authority hex> <literal> <port> absent delay:<ms> ...}"
+        t = q.split()
+        E, n = int(t[5]), int(t[6])
+        ir, _ = _c10_parse(impl); mr, _ = _c10_parse(model)
+        for k in range(n):
+            f = t[7 + 9 * k: 16 + 9 * k]
+            dest = bytes.fromhex(f[1]).decode("latin1")
+            delay = int(f[5].split(":")[1])
+            a = " ".join(ir[k]) if ir and k < len(ir) else "nothing"
+            b = " ".join(mr[k]) if mr and k < len(mr) else "?"
+            if a != b:
+                return ("%s CONNECT %s (%s destination), establishment timeout %d ms, the outbound attempt completes after %d ms: the "
+                        "client was answered [%s]; an attempt that %s must be answered [%s]"
+                        % (t[2], dest, "literal" if f[2] == "1" else "host-name", E, delay, a,
+                           "does not complete within the timeout" if delay > E else "completes in time", b))
+        return None
     if q.split()[1] == "hung":
         return "idle tunnel never closed (no expiry within 60 T of virtual time)"
     try:
@@ -691,17 +714,33 @@ PROPS = {
         assumptions=[],
     ),
     "C14": dict(
-        suites=["c14"],
+        retry_on_failure=True,
+        suites=["c14", "c14est", "c14live"],
         judge=judge_c14,
         level="proof",
         rule="the same machinery as C02 with every delay drawn from {0, T/4, T/2, 3T/4, T-1, T, T+1, 5T/4, 2T-1, 2T, 2T+1, 3T}: one-sided "
              "traffic, traffic exactly at the deadline, back-pressure stalls; the virtual time at which exchange() returns TimedOut is "
-             "compared with the Lean timer model fed with the logged transfer times",
-        explanation="theorems idle_not_early, idle_bound_2T, progress_at_deadline_keeps_open, wf_step about the Timer model of TT/Model/Pipe.lean",
+             "compared with the Lean timer model fed with the logged transfer times."
+             " Establishment timeout (suite c14est): CONNECT over the real HTTP/1.1 and HTTP/2 codecs and the real Tunnel to literal "
+             "IPv4 / IPv6 and host-name destinations whose scripted outbound attempt completes after {0, 1, E/2, E-1, E, E+1, 2E, 10E+5} "
+             "ms of virtual time, E in {250, 30000} (thorough also 1, 1000): the response (200, or 502 with X-Warning 302) is compared "
+             "with the model, and the attempt must have been dropped (its future, i.e. socket and task) iff it was over the timeout."
+             " TLS handshake timeout (suite c14live, wall clock, H = 600 ms): the real Core::listen on a loopback port; clients that stay "
+             "silent, stop in the middle of the ClientHello, drip it a byte every 50 ms, send it completely and never continue, or send "
+             "a record prefix must be disconnected within [H - 30 ms, 2H + 1.5 s]; clients that complete the handshake (at once, after "
+             "H/2) stay connected past 2H and are served a health check",
+        explanation="theorems idle_not_early, idle_bound_2T, progress_at_deadline_keeps_open, wf_step about the Timer model of "
+                    "TT/Model/Pipe.lean; establishment_timeout_reported, establishment_in_time_connected, "
+                    "establishment_timeout_destination_independent about TT.Dispatch.handle (the request path model of C10)",
         trusted=["tokio's timer wheel under the paused clock (ms granularity); with a real clock timers fire late by the scheduling latency, "
                  "which the model's exact clock does not include",
-                 "connect / TLS-handshake timeouts are tokio::time::timeout wrappers: exercised by the C10 suite (connect) only"],
-        assumptions=["a direction whose peer has already finished is closed after T (not 2T) of silence: within the stated bound"],
+                 "the TLS-handshake timeout is a tokio::time::timeout wrapper around TlsListener::listen and the acceptor: it is not "
+                 "modelled, only observed on the live listener with a wall clock (a drop later than 2H + 1.5 s or earlier than H - 30 ms "
+                 "is reported; a machine stalled for longer than that would be a false alarm, hence the second run before a failure is believed)",
+                 "release of the sockets and tasks of an abandoned attempt is observed as the drop of the connector's future (scripted "
+                 "connector) and as the close of the client's TCP connection (live listener); file descriptors are not counted"],
+        assumptions=["a direction whose peer has already finished is closed after T (not 2T) of silence: within the stated bound",
+                     "an attempt completing exactly at E counts as completed (tokio polls the inner future first)"],
     ),
     "C08": dict(
         retry_on_failure=True,
